@@ -170,15 +170,38 @@ def run_shard(tier, seed, shard, nshards, tally: Tally, scale=1.0):
         for hs, junk in ((1, 11 + shard), (12345, 977 + shard)):
             res = run_subprocess(scs, hs, junk)
             tally.count("cross_process_runs", len(res))
-            for (sc, fp), got in zip(batch, res):
+            res_again = None
+            for i, ((sc, fp), got) in enumerate(zip(batch, res)):
                 if fp[1] == "":
                     got = [got[0], ""]
+                if got[0] == "CRASH" and got[1] == "timeout":
+                    tally.aborted["timeout"] = tally.aborted.get("timeout", 0) + 1  # inconclusive, never a violation
+                    continue
                 if got[0] == "CRASH" or tuple(got) != tuple(fp):
-                    sig = "C14/cross-process/differs"
+                    # An alarm must come with an input that shows it again. The scenario is run twice more alone in fresh
+                    # interpreters (same hash seed), and the whole batch once more (a run may depend on the runs made
+                    # before it in the same process: that is process state too).
+                    norm = (lambda g: [g[0], ""]) if fp[1] == "" else (lambda g: g)
+                    alone = [norm(run_subprocess([sc], hs, junk)[0]) for _ in range(2)]
+                    if res_again is None:
+                        res_again = run_subprocess(scs, hs, junk)
+                    in_batch = norm(res_again[i])
                     engines = "/".join(lv["engine"] for lv in sc["levels"])
+                    case = {"scenario": sc, "hashseed": hs, "junk": junk}
+                    if any(tuple(g) != tuple(fp) for g in alone):
+                        sig = "C14/cross-process/differs"
+                        got = next(g for g in alone if tuple(g) != tuple(fp))
+                    elif tuple(in_batch) != tuple(fp):
+                        sig = "C14/cross-process/differs-after-earlier-runs-in-the-process"
+                        got = in_batch
+                        case["batch_prefix"] = scs[: i + 1]
+                    else:
+                        tally.count("cross_process_mismatch_not_reproduced")
+                        tally.label("cross_process_mismatch_not_reproduced")
+                        continue
                     v = Violation(PROP, sig, f"engines {engines}: a fresh interpreter with PYTHONHASHSEED={hs} produced digest/summary {got} but the in-process run produced {list(fp)}")
                     if not any(x.signature == sig for x in fs):
-                        fs.append(Failure(PROP, sig, {"scenario": sc, "hashseed": hs, "junk": junk}, [v], "cross"))
+                        fs.append(Failure(PROP, sig, case, [v], "cross"))
     # minimize(seed=...) twins
     def body_min(case):
         from pyhms import minimize
@@ -214,8 +237,14 @@ def replay(case, kind=""):
     if isinstance(j, int):
         j = [3, j]
     vs, r1, fp = check_inprocess(sc, j[0], j[1])
+    if fp is not None and case.get("batch_prefix"):
+        got = run_subprocess(case["batch_prefix"], int(case.get("hashseed", 1)), int(j[1]))[-1]
+        if fp[1] == "":
+            got = [got[0], ""]
+        if tuple(got) != tuple(fp):
+            vs.append(Violation(PROP, "C14/cross-process/differs-after-earlier-runs-in-the-process", f"after {len(case['batch_prefix']) - 1} earlier runs in the same interpreter: {got} vs in-process {list(fp)}"))
     if fp is not None:
-        for hs in (1, 12345):
+        for hs in sorted({1, 12345, int(case.get("hashseed", 1))}):
             got = run_subprocess([sc], hs, 5)[0]
             if fp[1] == "":
                 got = [got[0], ""]
